@@ -224,6 +224,12 @@ func VerifC12Reader() {
 		r.second = rt.Bytes(len(newData))
 		rt.Reach("second-pass-differs")
 	}
+	// the process may in addition stop after any number of file operations
+	// (the source misbehaves and execution halts before the clean-up)
+	if rt.Param("HALT", 1) == 1 && rt.Bool() {
+		fsys.CrashAt = fsys.Ops + rt.IntRange(0, vCountOps(fsys, newData))
+		rt.Reach("reader-fault-and-halt")
+	}
 	_, _, err := c.Put(vIDs[0], r)
 	if err != nil {
 		rt.Reach("put-reported-error")
